@@ -224,6 +224,37 @@ func aclOf(v *sim.View) govTypes.ACL {
 	return acl
 }
 
+// aclOwners decodes the stored gov/acl JSON by itself and returns the distinct addresses (lower-case hex) named for key,
+// in list order.
+func aclOwners(v *sim.View, key string) []string {
+	type pair struct {
+		Key  string `json:"acl_key"`
+		Addr string `json:"address"`
+	}
+	var pairs []pair
+	if s, ok := v.Params["gov/acl"]; ok {
+		// amino JSON of the registered interface: {"type":"gov/non_map_acl","value":[{acl_key,address},...]}
+		var wrapped struct {
+			Value []pair `json:"value"`
+		}
+		if json.Unmarshal([]byte(s), &wrapped) == nil && wrapped.Value != nil {
+			pairs = wrapped.Value
+		} else {
+			_ = json.Unmarshal([]byte(s), &pairs)
+		}
+	}
+	var out []string
+	seen := map[string]bool{}
+	for _, p := range pairs {
+		a := lower(p.Addr)
+		if p.Key == key && !seen[a] {
+			seen[a] = true
+			out = append(out, a)
+		}
+	}
+	return out
+}
+
 func daoOwnerOf(v *sim.View) string {
 	var o sdk.Address
 	if s, ok := v.Params["gov/daoOwner"]; ok {
@@ -315,8 +346,24 @@ func (C17) OnCall(e *sim.Env, c *sim.Call) {
 		} else {
 			reqVal, _ = govTypes.ModuleCdc.MarshalJSON(m.(govTypes.MsgUpgrade).Upgrade)
 		}
-		owner := hexs(aclOf(pre).GetOwner(key))
-		isOwner := owner != "" && owner == sender
+		// independent reading of the stored list (not posmint's GetOwner)
+		owners := aclOwners(pre, key)
+		owner := ""
+		isOwner := false
+		for _, o := range owners {
+			if o != "" && o == sender {
+				isOwner = true
+			}
+		}
+		if len(owners) > 0 {
+			owner = owners[0]
+		}
+		if len(owners) > 1 {
+			// a replacement list may name a key twice with different addresses; the statement does not say which entry
+			// counts, so any named address is accepted as "the owner" and everybody else must be refused
+			e.Count("c17.acl_names_several_owners_for_key")
+			owner = fmt.Sprint(owners)
+		}
 		if ok {
 			e.Count("c17.gov_success")
 			if !isOwner {
